@@ -180,6 +180,23 @@ def gen_items(R):
             call = ', '.join('x%d' % i for i in range(len(m['args'])))
             items.append((3, 'rel::homogeneity<%s>("%s.%s(%s)", \'m\', [](const %s& c, %s) { return c.%s(%s); });' % (
                 types, m['c'], m['name'], ', '.join(m['args']), C, params, m['name'], call)))
+    # member functions with a constructor twin (mode 6): c.Name(args) vs Name(...) with the same operands in the constructor's order
+    ctors_by_types = {}
+    for c in R['ctors']:
+        ctors_by_types.setdefault((c['c'], tuple(sorted(c['args']))), []).append(c['args'])
+    for m in R['members']:
+        if m['r'] in ('optional',) or m['name'] == 'Angle':
+            continue  # Angle(a, a): C11's business, with its own oracle
+        operands = [m['c']] + list(m['args'])
+        if len(set(operands)) != len(operands):
+            continue  # two operands of one type: the constructor's order cannot be read off the types
+        for ca in ctors_by_types.get((m['r'], tuple(sorted(operands))), [])[:1]:
+            types = ', '.join(cxx(x) for x in operands)
+            params = ', '.join('const %s& x%d' % (cxx(x), i) for i, x in enumerate(operands))
+            mcall = 'x0.%s(%s)' % (m['name'], ', '.join('x%d' % i for i in range(1, len(operands))))
+            ccall = '%s(%s)' % (cxx(m['r']), ', '.join('x%d' % operands.index(t) for t in ca))
+            sig = '%s.%s(%s) vs %s(%s)' % (m['c'], m['name'], ', '.join(m['args']), m['r'], ', '.join(ca))
+            items.append((6, 'rel::member_twin<%s>("%s", [](%s) { return %s; }, [](%s) { return %s; });' % (types, sig, params, mcall, params, ccall)))
     # inverse pairs (mode 5)
     rel2 = []   # (result, x, y, expression template with a,b placeholders, label)
     for c in R['ctors']:
